@@ -65,12 +65,15 @@ def ast_conv(e, f):
 OPS1 = {"set": ("O1Set", "nv"), "get": ("O1Get", "n"), "idx": ("O1Idx", "n"), "idxset": ("O1IdxSet", "nv"),
         "idxelem": ("O1IdxElem", "nns"), "coord": ("O1Coord", "n"), "nnodes": ("O1NNodes", ""), "dump": ("O1Dump", ""),
         "interp": ("O1Interp", "s"), "trap": ("O1Trap", "n"),
-        "file": ("O1File", "pnv"), "reread": ("O1Reread", "p")}
+        "file": ("O1File", "pnv"), "reread": ("O1Reread", "p"),
+        # search-only (no model constructor): output, then read() into a mesh that already HOLDS non-zero data (nodes2, data2 row-major,
+        # same number of variables as the writer), then every read path + the quadrature on the mesh that was read, then the writer again
+        "fileinto": (None, "pvv")}
 OPS2 = {"set": ("O2Set", "nnv"), "get": ("O2Get", "nn"), "idx": ("O2Idx", "nn"), "idxset": ("O2IdxSet", "nnv"),
         "idxelem": ("O2IdxElem", "nnns"), "assign": ("O2Assign", "s"), "xsec": ("O2XSec", "n"), "ysec": ("O2YSec", "n"),
         "varmat": ("O2VarMat", "n"), "apply": ("O2Apply", "en"), "coord": ("O2Coord", "nn"), "nnodes": ("O2NNodes", ""), "dump": ("O2Dump", ""),
         "trap": ("O2Trap", "n"), "sqtrap": ("O2SqTrap", "n"), "file": ("O2File", "p"), "filevar": ("O2FileVar", "pn")}
-ENDS1 = {"idxelem", "file", "reread"}
+ENDS1 = {"idxelem", "file", "reread", "fileinto"}
 ENDS2 = {"idxelem", "assign", "apply", "file", "filevar"}
 
 def op_line(elt, table, op):
@@ -131,7 +134,7 @@ class Ref2:
     def values(self):
         return list(self.xs) + list(self.ys) + [x for i in range(self.nx) for j in range(self.ny) for x in self.vars[(i, j)]]
 
-# expected-stream entries: ('i', n) | ('x', exact value) | ('~', Fraction, abs tol) | ('P',) | ('?',)
+# expected-stream entries: ('i', n) | ('x', exact value) | ('~', Fraction, abs tol) | ('|', [(Fraction, abs tol), ...]) any of | ('P',) | ('?',)
 def X(v): return ('x', Fraction(v))
 def XV(v): return [('i', len(v))] + [X(x) for x in v]
 def AV(v, tols): return [('i', len(v))] + [('~', Fraction(x), t) for x, t in zip(v, tols)]
@@ -153,6 +156,7 @@ def dump2(m):
     return out
 
 ULP = Fraction(1, 2 ** 52)
+WINDOW_IN = Fraction(1, 2 ** 24)     # 5.96e-8 < 1e-7: points this close to a node are inside the snapping window whatever its rounding
 
 def lines_expected(lines, prec):
     """lines: list of lists of original values; every token equals the original to the printed precision"""
@@ -178,9 +182,20 @@ def interp_expected(m, x):
                 left = m.vars[k - 1]
                 return [(v, 4 * ULP * max(abs(Fraction(l)), abs(v), 1)) for v, l in zip(vals, left)]
             return [(v, Fraction(0)) for v in vals]
+    def line(c):
+        l = [Fraction(v) for v in m.vars[c]]; r = [Fraction(v) for v in m.vars[c + 1]]
+        t = (xf - xs[c]) / (xs[c + 1] - xs[c])
+        return [(a + (b - a) * t, Fraction(1, 10 ** 13) * max(1, abs(a), abs(b))) for a, b in zip(l, r)]
     for k in range(n - 1):
         if xs[k] < xf < xs[k + 1]:
-            if min(xf - xs[k], xs[k + 1] - xf) < Fraction(1, 10 ** 6):
+            d, node = min((xf - xs[k], k), (xs[k + 1] - xf, k + 1))
+            if d <= WINDOW_IN:
+                # well inside the implementation's 1e-7 snapping window around `node`, and inside the grid: the cell's own line or the
+                # line of the other cell that shares the node (extrapolated over d) may be used -- nothing else
+                cells = [c for c in (node - 1, node) if 0 <= c <= n - 2]
+                alts = [line(c) for c in cells]
+                return [('|', [a[v] for a in alts]) for v in range(len(m.vars[k]))]
+            if d < Fraction(1, 10 ** 6):
                 return None
             l = [Fraction(v) for v in m.vars[k]]; r = [Fraction(v) for v in m.vars[k + 1]]
             t = (xf - xs[k]) / (xs[k + 1] - xs[k])
@@ -238,7 +253,7 @@ def ref_step1(m, op):
         _chk(n >= 1)
         e = interp_expected(m, a[0])
         if e is None: return [('i', m.nvars)] + [('?',)] * m.nvars, None
-        return [('i', m.nvars)] + [('~', v, t) for v, t in e], None
+        return [('i', m.nvars)] + [x if x[0] == '|' else ('~', x[0], x[1]) for x in e], None
     if name == "trap":
         _chk(n >= 1)
         s, t = trap1_expected(m, a[0]); return [('~', s, t)], None
@@ -259,6 +274,27 @@ def ref_step1(m, op):
             out += [('i', nv2), ('i', cnt)] + [('?',)] * cnt
             for _ in range(cnt): out += [('i', nv2)] + [('?',)] * nv2
         return out, None
+    if name == "fileinto":
+        prec, nodes2, data2 = a
+        _chk(len(data2) == len(nodes2) * m.nvars)
+        lines = [[m.nodes[k]] + list(m.vars[k]) for k in range(n)]
+        tolf = lambda x: print_tol(x, prec)
+        out = lines_expected(lines, prec)
+        # whatever the receiving mesh held (fewer / as many / more nodes, non-zero data), after read() it holds the file -- through the
+        # index path, the guarded path, coord, and under the quadrature
+        out += dump1_approx(m, tolf)
+        out.append(('i', n))
+        for k in range(n):
+            out += AV(m.vars[k], [tolf(x) for x in m.vars[k]]) + [('~', Fraction(m.nodes[k]), tolf(m.nodes[k]))]
+        for var in range(m.nvars):
+            if n == 0: out.append(('P',)); break
+            s, t = trap1_expected(m, var)
+            for k in range(n - 1):
+                dx = abs(Fraction(m.nodes[k + 1]) - Fraction(m.nodes[k])); ex = tolf(m.nodes[k]) + tolf(m.nodes[k + 1])
+                F = abs(Fraction(m.vars[k][var])) + abs(Fraction(m.vars[k + 1][var])); eF = tolf(m.vars[k][var]) + tolf(m.vars[k + 1][var])
+                t += Fraction(1, 2) * ((dx + ex) * (F + eF) - dx * F) * (1 + 64 * ULP)
+            out.append(('~', s, t))
+        return out + dump1(m), None
     raise ValueError(name)
 
 def ref_hist1(elt, nvars, nodes, ops):
@@ -367,10 +403,14 @@ def _item_ok(elt, e, g):
         if f != f or f in (math.inf, -math.inf): return "reference %s, implementation %r" % (_show(e), f)
         v = Fraction(f)
     else: return "reference %s, implementation %r" % (_show(e), g)
+    if e[0] == '|':
+        if any(abs(v - c) <= t for c, t in e[1]): return None
+        return "reference any of %s (tolerance %.3g), implementation %r" % ([float(c) for c, _ in e[1]], float(e[1][0][1]), float(v))
     if e[0] == 'x': return None if v == e[1] else "reference %s, implementation %s" % (_show(e), float(v))
     if e[0] == '~': return None if abs(v - e[1]) <= e[2] else "reference %s (tolerance %.3g), implementation %r" % (_show(e), float(e[2]), float(v))
     raise ValueError(e)
 
 def _show(e):
     if e[0] in ('x', '~'): return repr(float(e[1])) if e[1].denominator not in (1,) else str(e[1].numerator)
+    if e[0] == '|': return "any of %s" % [float(c) for c, _ in e[1]]
     return repr(e)
